@@ -30,7 +30,7 @@ MCViews == [ k \in { <<"dvd", <<"d">>>> } |-> [cid |-> "viso:dvd:/d", size |-> P
 
 R(op, path, limit, off, start, count, plen, chunk) ==
   [op |-> op, path |-> path, limit |-> P(limit), off |-> P(off), start |-> start, count |-> count,
-   plen |-> plen, chunk |-> chunk, hugeArgs |-> FALSE]
+   plen |-> plen, chunk |-> chunk, hugeArgs |-> FALSE, of |-> "", cut |-> 0, bad |-> << >>]
 RP(op, path) == R(op, path, 0, 0, 0, 0, 0, "")
 R0(op) == R(op, << >>, 0, 0, 0, 0, 0, "")
 
